@@ -118,7 +118,7 @@ class Rec:
 class Watchdog:
     """SIGALRM budget around one implementation step; a timeout is a harness finding, never skipped."""
 
-    class Timeout(Exception):
+    class Timeout(BaseException):   # not an Exception: handlers for "whatever the implementation raises" must not swallow it
         pass
 
     def __init__(self, seconds: int):
